@@ -225,6 +225,9 @@ def history_check(ctx, prop):
     for hi, (h, r) in enumerate(zip(hs, res)):
         rep.cases += 1
         rep.distinct.add(json.dumps(h, sort_keys=True))
+        if 'range' in r:
+            rep.stats['histories_out_of_range'] += 1     # exact integer arithmetic far outside the double range
+            continue
         if 'error' in r:
             rep.stats['runner_errors'] += 1
             rep.oracle_failures.append({'what': 'history runner failed: ' + r['error'], 'lines': [], 'kf': None, 'history': h})
@@ -257,7 +260,7 @@ def history_check(ctx, prop):
     # correspondence: each operation's outcome against the pure model
     for (hi, oi), m in zip(owner, model):
         r = res[hi]
-        if 'error' in r:
+        if 'error' in r or 'range' in r:
             continue
         i = r['outs'][oi]
         if i == 'NOSLOT':
@@ -381,7 +384,7 @@ def history_correspondence(ctx, rep, n, keep, maxlen=10, what='history', extra=N
                 continue
             m = model[k]
             k += 1
-            if 'error' in r:
+            if 'error' in r or 'range' in r:
                 continue
             i = r['outs'][oi]
             if i == 'NOSLOT':
